@@ -10,21 +10,27 @@ import "github.com/mgtv-tech/redis-GunYu/pkg/redis/keyspec"
 //@ func client.Redis.Flush(self) (err)
 //@   trusted abstract target connection
 
+//   nSent / nRecv  commands handed to the connection with Send / replies taken off it with Receive
 //@ func client.Redis.Receive(self) (reply, err)
-//@   trusted abstract target connection: recvErrs counts the replies that were errors
-//@   modifies recvErrs
+//@   trusted abstract target connection: recvErrs counts the replies that were errors, nRecv every reply taken
+//@   ghost var nRecv mathint
+//@   modifies recvErrs, nRecv
 //@   ensures counted: (err != nil ==> recvErrs == old(recvErrs) + 1) && (err == nil ==> recvErrs == old(recvErrs))
+//@   ensures taken: nRecv == old(nRecv) + 1
 
 // A batch of pipelined commands is reported as applied only if every reply was read and none was an error.
 //@ func flushAndCheckReply
 //@   arith int
 //@   properties C04
 //@   ghost var recvErrs mathint
+//@   ghost var nRecv mathint
 //@   requires nonnil: cli != nil
-//@   modifies recvErrs
+//@   modifies recvErrs, nRecv
 //@   ensures all_replies_ok: result == nil ==> recvErrs == old(recvErrs)
+//@   ensures exactly_the_announced_number_of_replies_is_read [C04 C20]: result == nil && count >= 0 ==> nRecv == old(nRecv) + count
 //@   loop 1:
 //@     invariant none_failed: recvErrs == old(recvErrs)
+//@     invariant read_so_far: 0 <= j && nRecv == old(nRecv) + j && (count >= 0 ==> j <= count)
 
 // ---- key-exists policy on the plain full-sync path (C20) ------------------------------------
 //   probed    result of the EXISTS probe of the first chunk (-1 not probed, 0 absent, 1 present)
@@ -85,6 +91,9 @@ func SpecReplyTruth(reply interface{}) bool { panic("abstract spec function") }
 
 //@ func client.Redis.Send(self, cmd, args) (err)
 //@   trusted abstract target connection
+//@   ghost var nSent mathint
+//@   modifies nSent
+//@   ensures queued: (err == nil ==> nSent == old(nSent) + 1) && (err != nil ==> nSent == old(nSent))
 
 // Every native command a value is expanded into is addressed to the entry's key - the key the
 // EXISTS probe, the DEL of "replace" and the PEXPIRE address (with replaceHashTag it differs from
@@ -102,7 +111,14 @@ func SpecReplyTruth(reply interface{}) bool { panic("abstract spec function") }
 //@   properties C20
 //@   replay rdbrestore_hashtagExpanded
 //@   requires nonnil: cli != nil && e != nil
-//@   modifies heap
+//   Every command of the value has its reply read before the connection is used for anything else (the
+//   policy's EXISTS / DEL / PEXPIRE read ONE reply each: a reply left unread is taken for theirs). The
+//   callback keeps "commands sent and not yet answered == count" from one call to the next.
+//@   ghost var nSent mathint
+//@   ghost var nRecv mathint
+//@   requires no_reply_is_outstanding_beyond_the_commands_counted: nSent - nRecv == count && 0 <= count && count < 100
+//@   ensures and_it_stays_so [C20 C04]: result == nil ==> nSent - nRecv == count && 0 <= count && count < 100
+//@   modifies heap, nSent, nRecv, recvErrs
 //@   assert at call Send: value_is_written_to_the_key_the_policy_examined: SpecNativeKeyIndex(cmd) < len(args) ==> args[SpecNativeKeyIndex(cmd)] == dyn(e.Key)
 
 // skips: the replay remembers that the value of this key is being ignored (policy "ignore")
